@@ -126,7 +126,7 @@ pub fn write_evidence(
     });
     let dir = match std::env::var("VERIF_OUT_DIR") {
         Ok(d) if !d.is_empty() => format!("{d}/evidence"),
-        _ => "/verif/evidence".to_string(),
+        _ => format!("{}/evidence", super::verif_root()),
     };
     let _ = std::fs::create_dir_all(&dir);
     let path = format!("{dir}/{}.json", check.property);
